@@ -70,7 +70,7 @@ unexpected_cfgs = {{ level = "allow" }}
     p = os.path.join(d, "Cargo.toml")
     if not os.path.exists(p) or open(p).read() != toml:
         open(p, "w").write(toml)
-    shutil.copy(os.path.join(REPO, "Cargo.lock"), os.path.join(d, "Cargo.lock"))
+    copy_lockfile(d)
     return d
 
 
